@@ -139,6 +139,12 @@ func c09Exec(op string) string {
 	if extraNote != "" {
 		notes = append(notes, "projection:"+strings.ReplaceAll(extraNote, ",", ";"))
 	}
+	if len(notes) == 0 && hashStr(op)%3 == 0 {
+		// the wrappers named among the observation points, beside the Map methods on the decoded text
+		if wn := wrapLeafNodes(m); wn != "" {
+			notes = append(notes, "projection:"+strings.ReplaceAll(wn, ",", ";"))
+		}
+	}
 	res := "resolves"
 	if unres != "" {
 		res = "unresolved " + strings.ReplaceAll(unres, " | ", " ")
